@@ -85,14 +85,14 @@ def run_scripts(chk, scripts, label, monitor="TraceDelivery", env=None):
             bad = todo[ndone] if ndone < len(todo) else todo[-1]
             hangs.append((bad, "hang" if rc == 3 else "abort", o[-300:]))
             todo = todo[ndone + 1:]
-            if len(hangs) > 20:
+            if len(hangs) > 6:
                 break
     # the driver could not do what a script asked for: that is a defect of the script generator or the driver, never a verdict
     herr = [l for l in open(out) if '"ev":"harness_error"' in l]
     if herr:
         raise vlib.ToolError("%s: %d harness_error event(s) in the trace, e.g. %s" % (label, len(herr), herr[0][:300]))
     for bad, kind, tail in hangs:
-        chk.violation("%s/process-%s" % (chk.pid, kind), {"what": "the process running the scenarios %s while executing this scenario" % ("blocked for good (no progress for 15 s)" if kind == "hang" else "died"),
+        chk.violation("%s/process-%s" % (chk.pid, kind), {"what": "the process running the scenarios %s while executing this scenario" % ("blocked for good (no progress for 10 s)" if kind == "hang" else "died"),
                                                           "sock": bad.get("sock"), "scenario": bad.get("scen"), "tail": tail}, {"kind": "engine", "script": bad, "monitor": monitor})
     if hangs:
         # renumber the concatenated trace
